@@ -2160,13 +2160,18 @@ class Process:
             return cext.proc_cpu_affinity_get(self.pid)
 
         def _get_eligible_cpus(
-            self, _re=re.compile(br"Cpus_allowed_list:\t(\d+)-(\d+)")
+            self, _re=re.compile(br"Cpus_allowed_list:\t([\d,-]+)")
         ):
             # See: https://github.com/giampaolo/psutil/issues/956
             data = self._read_status_file()
-            match = _re.findall(data)
-            if match:
-                return list(range(int(match[0][0]), int(match[0][1]) + 1))
+            match = _re.search(data)
+            if match and b"-" in match.group(1):
+                # e.g. "0-3,8-11,15"
+                cpus = []
+                for part in match.group(1).split(b","):
+                    first, _, last = part.partition(b"-")
+                    cpus.extend(range(int(first), int(last or first) + 1))
+                return cpus
             else:
                 return list(range(len(per_cpu_times())))
 
